@@ -52,14 +52,30 @@ Definition rr_fuel : nat := N.to_nat 6000.
 Definition progs_of (c : case) : list (list (op (key := ckey))) := map (map to_op) (snd (fst c)).
 Definition k_of (c : case) : N := fst (fst c).
 
+(* the keys a case names, per thread and call; and the hash function the machines run with: the
+   hash reported for the FIRST key of the same class named by the case (so it is a function of the
+   class by construction; when the reported hashes are consistent -- checked by [spec_ok] -- it is
+   simply each key's own reported hash) *)
+Definition okeys (h : list (list (option ckey))) : list ckey :=
+  flat_map (flat_map (fun o => match o with Some x => [x] | None => [] end)) h.
+Definition case_keys (c : case) : list (list (option ckey)) := map (map key_of) (snd (fst c)).
+Definition class_hash (tbl : list ckey) (x : ckey) : N :=
+  match find (fun y => c_class y =? c_class x) tbl with Some y => c_hash y | None => 0 end.
+Definition hash_of (c : case) : ckey -> N := class_hash (okeys (case_keys c)).
+Definition consistent (tbl : list ckey) : bool :=
+  forallb (fun x => forallb (fun y => implb (c_class x =? c_class y) (c_hash x =? c_hash y)) tbl) tbl.
+
+Definition cons_of_log (lg : list (@event ckey)) : list (N * N * N) :=
+  rev (flat_map (fun e => match e with EvCreate kd x s => [(kind_code kd, c_class x, s)] | _ => [] end) lg).
+
 Definition run_case (c : case) : OUT :=
   let k := k_of c in
-  let '(cf, tr) := exec_full (step c_hash c_keq k) site rr_fuel (init_config k (progs_of c)) (map N.to_nat (snd c)) in
+  let '(cf, tr) := exec_full (step (hash_of c) c_keq k) site rr_fuel (init_config k (progs_of c)) (map N.to_nat (snd c)) in
   let r := fst cf in
-  (tr, map (fun l => map to_cres (rev (results l))) (snd cf), all_done (step c_hash c_keq k) cf,
-   rev (flat_map (fun e => match e with EvCreate kd x s => [(kind_code kd, c_class x, s)] | _ => [] end) (log r)),
+  (tr, map (fun l => map to_cres (rev (results l))) (snd cf), all_done (step (hash_of c) c_keq k) cf,
+   cons_of_log (log r),
    [listing (abs r KCounter); listing (abs r KGauge); listing (abs r KHistogram)],
-   map (map key_of) (snd (fst c)), 2 ^ k).
+   case_keys c, 2 ^ k).
 
 (* ---- equality on outputs: listings are compared as multisets (hash-map iteration order) ---- *)
 Fixpoint list_eqb {A} (eqb : A -> A -> bool) (a b : list A) : bool :=
@@ -105,16 +121,17 @@ Definition out_eqb (a b : OUT) : bool :=
    listings report each live class exactly once.                                                 *)
 Definition run_spec (c : case) (sched : list nat) :=
   let k := k_of c in
-  let '(cf, tr) := exec (sstep c_hash c_keq k) site (init_sreg, map init_local (progs_of c)) sched in
+  let '(cf, tr) := exec (sstep (hash_of c) c_keq k) site (init_sreg, map init_local (progs_of c)) sched in
   let r := fst cf in
-  (tr, map (fun l => map to_cres (rev (results l))) (snd cf), all_done (sstep c_hash c_keq k) cf,
+  (tr, map (fun l => map to_cres (rev (results l))) (snd cf), all_done (sstep (hash_of c) c_keq k) cf,
    rev (map (fun '(kd, x, s) => (kind_code kd, c_class x, s)) (s_cons r)),
    [listing (m_c r); listing (m_g r); listing (m_h r)]).
 
 Definition spec_ok (c : case) (o : OUT) : bool :=
-  let '(x, _, _) := o in
+  let '(x, h, _) := o in
   let '(tr, _, _, _, _) := x in
-  obs_eqb (run_spec c (map (fun e => N.to_nat (fst e)) tr)) x.
+  consistent (okeys h)          (* equal keys (one class) were reported with equal hashes *)
+  && obs_eqb (run_spec c (map (fun e => N.to_nat (fst e)) tr)) x.
 
 Definition known_class (c : case) : option N := None.
 
